@@ -288,6 +288,8 @@ where
             props: irs
                 .into_iter()
                 .map(|(prop_name, mut ir)| {
+                    let is_function_prop = ir.types.len() == 1
+                        && ir.types.first() == Some(&Some(atom!("Function")));
                     let mut props = vec![
                         PropOrSpread::Prop(Box::new(Prop::KeyValue(KeyValueProp {
                             key: PropName::Ident(quote_ident!("type")),
@@ -346,7 +348,20 @@ where
                     }) {
                         props.push(PropOrSpread::Prop(Box::new(Prop::KeyValue(KeyValueProp {
                             key: PropName::Ident(quote_ident!("default")),
-                            value: Box::new(default.clone()),
+                            value: Box::new(match default {
+                                // Vue does not call the default of a Function prop as a factory:
+                                // the written value itself is the default
+                                Expr::Arrow(ArrowExpr {
+                                    span: DUMMY_SP,
+                                    params,
+                                    body,
+                                    ..
+                                }) if is_function_prop && params.is_empty() => match &**body {
+                                    BlockStmtOrExpr::Expr(written) => (**written).clone(),
+                                    _ => default.clone(),
+                                },
+                                _ => default.clone(),
+                            }),
                         }))));
                     }
                     PropOrSpread::Prop(Box::new(Prop::KeyValue(KeyValueProp {
